@@ -175,12 +175,21 @@ def check(case):
             return inner(*args, **kwargs)
 
         plain = retrying if case["inner_decorator"] == 2 else passthrough
+        if case["inner_decorator"] == 3:
+            # log_call on top of a function that is already decorated with log_call
+            plain = log_call(inner, action_type="inner:call")
     inner_names = [p[0] for p in params]
     names = [p[0] for p in params]
-    if case.get("inner_decorator"):
+    if case.get("inner_decorator") == 3:
+        pass  # the inner wrapper has the function's own signature
+    elif case.get("inner_decorator"):
         # what Python binds for the function log_call actually decorates: (*args, **kwargs)
         names = ["args", "kwargs"] if case["inner_decorator"] != 2 else ["args", "retries", "kwargs"]
     deco = case["deco"]
+    if case.get("inner_decorator") == 3 and deco.get("action_type") is None:
+        # (the qualified name of an already decorated method is that of the generated wrapper: give the outer
+        # decorator an explicit type)
+        deco = dict(deco, action_type="outer:call")
     include_args = deco.get("include_args")
     if case.get("inner_decorator"):
         # which names include_args may use for a function hidden behind another decorator is not
@@ -269,6 +278,9 @@ def check(case):
                 got_exc = e
             got_ran = bool(ran)
             Logger._destinations = saved
+            if case.get("inner_decorator") == 3:
+                # the inner decorator's own action is a child; look at the outer one
+                msgs = [m for m in msgs if len(m["task_level"]) == 1]
             info["calls"] += 1
             desc = "call args=%r kwargs=%r of\n%s" % (args, kwargs, src)
             if ref_exc is not None and not ref_ran:
@@ -351,6 +363,8 @@ def classify(case, info):
         labels.append("under-another-functools.wraps-decorator")
         if case["inner_decorator"] == 2:
             labels.append("inner-wrapper-has-its-own-keyword")
+        if case["inner_decorator"] == 3:
+            labels.append("log_call-on-log_call")
     if info.get("invalid_include_args"):
         return True, labels + ["invalid-include_args"]
     labels.append("kinds=%d" % info["kinds"])
@@ -392,7 +406,7 @@ def strategy():
     return st.builds(
         lambda shared, inner, method, body, deco, params, calls: {"shared_decorator": shared, "inner_decorator": int(inner), "method": method, "body": body, "deco": deco, "params": params, "calls": calls},
         st.sampled_from([0, 0, 1, 2]),
-        st.sampled_from([0, 0, 0, 0, 1, 2]),
+        st.sampled_from([0, 0, 0, 0, 1, 2, 3]),
         st.booleans(),
         st.sampled_from(["sentinel", "locals", "locals", "raise", "raise_falsy"]),
         deco,
